@@ -28,11 +28,6 @@ Definition enc_oside (o : oside) : sx := L (of_nat (fst o) :: map enc_frag (snd 
 
 Definition enc_ok (O : list oside) : sx := L [A 1%Z; A 1%Z; L (map enc_oside O)].
 
-Definition flagged (res : result) : list oside :=
-  map (fun i => ((if Nat.eqb i (r_side res) then (if r_newsrc res then 2 else 1) else 0),
-                 nth i (r_sides res) []))
-      (seq 0 (length (r_sides res))).
-
 Definition show (x : tres result) : sx :=
   match x with
   | TOk res => enc_ok (flagged res)
@@ -93,7 +88,7 @@ Definition run_C16 (x : sx) : sx :=
   let implfwd := sx_nth 4 x in
   let implbi := sx_nth 5 x in
   let implba := sx_nth 6 x in
-  let wf := wf_transp T V && wf_src T r src in
+  let wf := wf_input T complex V r src in
   let m := match mode with
            | 0 => transpose_annotation (fuel_for src) lens complex V (map (fun p => mkfrag r (fst p) (snd p)) src) cfg
            | _ => transpose (fuel_for src) lens complex V r src cfg false
